@@ -58,6 +58,8 @@ func (pr *probe) HandleObjectValue(key, data []byte) (int, error) {
 	return pr.record(append([]byte(nil), key...), data)
 }
 
+var errDeclinedEOF = fmt.Errorf("member rejected by the handler: %w", io.EOF)
+
 type sentinelErr struct{ id int }
 
 func (e *sentinelErr) Error() string {
@@ -199,7 +201,11 @@ func RunC07(c *Ctx) {
 		d := cs.Input
 		m := c.Parse(cs)
 		me := &memberEnds{doc: d, m: map[int]int{}}
-		declined := &sentinelErr{1}
+		var declined error = &sentinelErr{1}
+		if c.Rec.R.Cases%2 == 0 {
+			// the handler's own error is often a wrapped standard one (its reader hit the end of its data)
+			declined = errDeclinedEOF
+		}
 		for kind := 0; kind < 2; kind++ {
 			wantKind := refmodel.KArray
 			if kind == 1 {
